@@ -3,6 +3,8 @@ package sym
 import (
 	"fmt"
 	"go/types"
+	"net"
+	"strings"
 
 	"golang.org/x/tools/go/ssa"
 )
@@ -310,5 +312,128 @@ func init() {
 			return Tuple{v, Iface{}}, true
 		}
 		return nil, false
+	}
+}
+
+// ---- C12: sockets for the real Start(): a harness registers what the
+// environment will deliver (sx.RegisterListener / sx.RegisterDatagrams) and
+// net.Listen / net.ListenUDP hand it out.
+func init() {
+	sxIntrinsics["RegisterListener"] = func(w *Worker, fr *frame, a []Value) (Value, bool) {
+		w.pathState["listener"] = a[0]
+		return nil, true
+	}
+	// RegisterDatagrams(payloads [][]byte, from []string)
+	sxIntrinsics["RegisterDatagrams"] = func(w *Worker, fr *frame, a []Value) (Value, bool) {
+		w.pathState["datagrams"] = w.asSlice(a[0])
+		w.pathState["datagramFrom"] = w.asSlice(a[1])
+		w.pathState["datagramPos"] = 0
+		return nil, true
+	}
+	sxIntrinsics["DatagramsRead"] = func(w *Worker, fr *frame, a []Value) (Value, bool) {
+		n, _ := w.pathState["datagramPos"].(int)
+		return vI(n), true
+	}
+	sxIntrinsics["UDPSocketClosed"] = func(w *Worker, fr *frame, a []Value) (Value, bool) {
+		c, _ := w.pathState["udpClosed"].(int)
+		return vI(c), true
+	}
+	prevListen := intrinsics["net.Listen"]
+	intrinsics["net.Listen"] = func(w *Worker, fr *frame, args []Value) (Value, bool) {
+		l, ok := w.pathState["listener"]
+		if !ok {
+			return prevListen(w, fr, args)
+		}
+		w.recordCall(fr, args)
+		return Tuple{l, Iface{}}, true
+	}
+	prevListenUDP := intrinsics["net.ListenUDP"]
+	intrinsics["net.ListenUDP"] = func(w *Worker, fr *frame, args []Value) (Value, bool) {
+		if _, ok := w.pathState["datagrams"]; !ok {
+			return prevListenUDP(w, fr, args)
+		}
+		w.recordCall(fr, args)
+		cell := zero(mustDeref(fr.fn.Signature.Results().At(0).Type()))
+		return Tuple{&cell, Iface{}}, true
+	}
+	intrinsics["(*net.UDPConn).ReadFromUDP"] = func(w *Worker, fr *frame, args []Value) (Value, bool) {
+		w.stub("(*net.UDPConn).ReadFromUDP (delivers the registered datagrams one per call into the caller's buffer, then blocks until Close)")
+		w.schedPoint("udp-read")
+		w.block(func() bool {
+			pos, _ := w.pathState["datagramPos"].(int)
+			dg, _ := w.pathState["datagrams"].(Slice)
+			closed, _ := w.pathState["udpClosed"].(int)
+			return pos < len(dg) || closed > 0
+		}, "ReadFromUDP")
+		res := fr.fn.Signature.Results()
+		if closed, _ := w.pathState["udpClosed"].(int); closed > 0 {
+			return Tuple{vI(0), zero(res.At(1).Type()), w.newError("use of closed network connection")}, true
+		}
+		pos := w.pathState["datagramPos"].(int)
+		payload := w.asSlice(w.pathState["datagrams"].(Slice)[pos])
+		from := w.pathState["datagramFrom"].(Slice)[pos].(Str)
+		w.pathState["datagramPos"] = pos + 1
+		buf := w.asSlice(args[1])
+		n := len(payload)
+		if n > len(buf) {
+			n = len(buf)
+		}
+		for i := 0; i < n; i++ {
+			buf[i] = payload[i]
+		}
+		// *net.UDPAddr{IP, Port, Zone}
+		host, port := from.S, 0
+		if i := strings.LastIndexByte(from.S, ':'); i >= 0 {
+			host = from.S[:i]
+			fmt.Sscan(from.S[i+1:], &port)
+		}
+		ip := net.ParseIP(host)
+		if v4 := ip.To4(); v4 != nil {
+			ip = v4
+		}
+		addrT := mustDeref(res.At(1).Type())
+		st := addrT.Underlying().(*types.Struct)
+		var addr Value = zero(addrT)
+		for i := 0; i < st.NumFields(); i++ {
+			switch st.Field(i).Name() {
+			case "IP":
+				addr.(Struct)[i] = bytesVal(ip)
+			case "Port":
+				addr.(Struct)[i] = vI(port)
+			}
+		}
+		w.progress()
+		return Tuple{vI(n), &addr, Iface{}}, true
+	}
+	udpClose := func(w *Worker, fr *frame, args []Value) (Value, bool) {
+		c, _ := w.pathState["udpClosed"].(int)
+		w.pathState["udpClosed"] = c + 1
+		w.progress()
+		return Iface{}, true
+	}
+	udpLocal := func(w *Worker, fr *frame, args []Value) (Value, bool) {
+		return Iface{}, true
+	}
+	for _, recv := range []string{"(*net.UDPConn)", "(*net.conn)"} {
+		intrinsics[recv+".Close"] = udpClose
+		intrinsics[recv+".LocalAddr"] = udpLocal
+	}
+	intrinsics["(*net.UDPAddr).String"] = func(w *Worker, fr *frame, args []Value) (Value, bool) {
+		p := args[0].(*Value)
+		if p == nil {
+			return Str{S: "<nil>"}, true
+		}
+		st := mustDeref(fr.fn.Signature.Recv().Type()).Underlying().(*types.Struct)
+		var ip net.IP
+		port := 0
+		for i := 0; i < st.NumFields(); i++ {
+			switch st.Field(i).Name() {
+			case "IP":
+				ip = net.IP(concBytes(w.asSlice((*p).(Struct)[i])))
+			case "Port":
+				port = sI((*p).(Struct)[i])
+			}
+		}
+		return Str{S: net.JoinHostPort(ip.String(), fmt.Sprint(port))}, true
 	}
 }
